@@ -370,11 +370,36 @@ def edge_to_edge_sets():
     return out
 
 
+def coinciding_box_sets():
+    """Several colour glyphs whose clip boxes coincide in one master and differ in another (COLR clip lists share one box
+    between glyphs with equal boxes, separately in every master), with and without explicit quantisation."""
+    def svg(x0, y0, x1, y1, tri):
+        body = (f'<path d="M{x0},{y0} L{x1},{y0} L{x0},{y1} Z" fill="#E53935"/>' if tri else
+                f'<path d="M{x0},{y0} L{x1},{y0} L{x1},{y1} L{x0},{y1} Z" fill="#1E88E5"/>')
+        return f'<svg xmlns="http://www.w3.org/2000/svg" viewBox="0 0 100 100">{body}<path d="M{x0 + 5},{y0 + 5} L{x0 + 12},{y0 + 5} L{x0 + 5},{y0 + 12} Z" fill="#FDD835"/></svg>\n'
+    out = []
+    for k, (default, q) in enumerate([(300, None), (700, 1), (300, 50)]):
+        axes = [("wght", "Weight", default)]
+        masters = [("thin", "Thin", {"wght": 300}), ("bold", "Bold", {"wght": 700})]
+        if k % 2:
+            masters.reverse()
+        sources = {
+            # thin: a and b cover the same box, c another; bold: a has grown, b and c now coincide
+            "thin": {"e300.svg": svg(20, 30, 60, 70, False), "e301.svg": svg(20, 30, 60, 70, True), "e302.svg": svg(10, 10, 40, 50, False)},
+            "bold": {"e300.svg": svg(5, 10, 90, 95, False), "e301.svg": svg(10, 10, 40, 50, True), "e302.svg": svg(10, 10, 40, 50, False)},
+        }
+        options = {"color_format": '"glyf_colr_1"', "keep_glyph_names": "true", "reuse_tolerance": -1}
+        if q is not None:
+            options["clipbox_quantization"] = q
+        out.append((axes, masters, sources, options, ["e300", "e301", "e302"]))
+    return out
+
+
 def check_random(chk, B, k, given=None):
     r = common.rng("C18", "random", k)
     axes, masters, sources, options, names = given if given is not None else random_master_set(r)
     r = common.rng("C18", "random-eval", k)
-    ctx = f"random {k}: " if given is None else f"edge-to-edge {k}: "
+    ctx = f"random {k}: " if given is None else (f"edge-to-edge {k}: " if k < 2000 else f"coinciding boxes {k}: ")
     rp = {"axes": axes, "masters": masters, "options": options, "sources": sources}
     rc, log, data = B.vf(axes, masters, sources, options)
     if rc != 0 or data is None:
@@ -479,6 +504,8 @@ def run(chk):
             check_random(chk, B, k)
         for k, given in enumerate(edge_to_edge_sets()):
             check_random(chk, B, 1000 + k, given=given)
+        for k, given in enumerate(coinciding_box_sets()):
+            check_random(chk, B, 2000 + k, given=given)
     chk.notes["scenario_outcomes"] = outcomes
     chk.notes["model_numbers_agree"] = f"{chk.model_agree} of {outcomes.get('font', 0)} built scenarios agree with the model at every sampled location (|diff| <= 1 unit)"
     chk.notes["random_incompatible_or_failed"] = chk.incompatible
